@@ -49,12 +49,21 @@ static lin mk_lin(int base)
   l.known_term = mk_rat(S[base + 20], S[base + 21]);
   return l;
 }
+#ifndef XT_QINF
+#define XT_QINF 16382   /* the model's inf() at 16 bits */
+#endif
 static idl_theory *build_idl_q(sat_core &sat, int n)
 {
   idl_theory *th = new idl_theory(sat, n);
   th->n_vars = n;
-  for (int i = 0; i < n; i++) for (int j = 0; j < n; j++) th->_dists[i][j] = S[300 + i * n + j];
+  for (int i = 0; i < n; i++) for (int j = 0; j < n; j++) th->_dists[i][j] = (S[300 + i * n + j] == XT_QINF) ? idl_theory::inf() : S[300 + i * n + j];
   return th;
+}
+static long q_scale(long b, long c, long k)
+{
+  if (b >= idl_theory::inf()) return c > 0 ? idl_theory::inf() : -idl_theory::inf();
+  if (b <= -idl_theory::inf()) return c > 0 ? -idl_theory::inf() : idl_theory::inf();
+  return c * b + k;
 }
 static rational lin_value(const lin &l, int n) { rational v = l.known_term; for (const auto &t : l.vars) v += t.second * rational(S[400 + t.first]); return v; }
 static std::string show(const lin &l) { return to_string(l); }
@@ -72,5 +81,5 @@ static q_bounds bounds_of(const idl_theory &th, const lin &l)
   if (ts.size() == 1) { rlo = -th._dists[ts[0].first][0]; rhi = th._dists[0][ts[0].first]; }
   else if (ts.size() == 2 && ts[0].second == -ts[1].second) { rlo = -th._dists[ts[0].first][ts[1].first]; rhi = th._dists[ts[1].first][ts[0].first]; }
   else return r;
-  return q_bounds{true, (c > 0 ? c * rlo : c * rhi) + k, (c > 0 ? c * rhi : c * rlo) + k};
+  return q_bounds{true, c > 0 ? q_scale(rlo, c, k) : q_scale(rhi, c, k), c > 0 ? q_scale(rhi, c, k) : q_scale(rlo, c, k)};
 }
